@@ -375,11 +375,33 @@ func C13_NoFileSystem() {
 		s.EnableFileImport(false)
 		s.SetImports(tengo.NewModuleMap())
 	}
+	// any sequence of up to three further configuration calls that never
+	// enables file import (in particular: an import directory set before or
+	// after file import was disabled, or without ever touching the switch)
+	haveMods := cfg != 2
+	ncalls := vf.Choice("ncalls", 4)
+	for k := 0; k < ncalls; k++ {
+		switch vf.Choice("call", 4) {
+		case 0:
+			_ = s.SetImportDir("/verif-no-such-dir")
+		case 1:
+			s.EnableFileImport(false)
+		case 2:
+			s.SetImports(mods)
+			haveMods = true
+		default:
+			s.SetImports(tengo.NewModuleMap())
+			haveMods = false
+		}
+	}
+	if nested && !haveMods {
+		vf.Stop()
+	}
 	var err error
 	res := vf.Guard(func() { _, err = s.Compile() }, 4000000)
 	vf.Assert(res != 4, "import with file import disabled never consults the file system: "+vf.LastGuard())
 	vf.Assert(res == 0, "import resolution returns: "+vf.LastGuard())
-	if name == "m" && cfg != 2 {
+	if name == "m" && haveMods {
 		vf.Assert(err == nil, "a name in the module map resolves")
 	} else {
 		vf.Assert(err != nil && contains(err.Error(), "not found"), "an unknown name fails with 'module not found'")
@@ -388,4 +410,51 @@ func C13_NoFileSystem() {
 		vf.Assert(!contains(err.Error(), "module file"), "an unknown name is rejected without consulting the file system: "+err.Error())
 	}
 	vf.Reach("nofs")
+}
+
+// C13_ObjectModules: modules the embedder supplies as plain objects (an
+// Importable returning a bare immutable map / array / scalar, without the
+// builtin-module name attribute): each import expression yields that module's
+// own value - also when two such modules have equal shapes, when one is
+// imported inside a source module, and when the same one is imported twice.
+func C13_ObjectModules() {
+	va, vb := vf.Int64("va"), vf.Int64("vb")
+	// (object modules must be maps: RemoveDuplicates documents that it rejects
+	// other top-level constant types)
+	shape := vf.Choice("shape", 3)
+	mk := func(name string, v int64) tengo.Object {
+		switch shape {
+		case 0:
+			return &tengo.ImmutableMap{Value: map[string]tengo.Object{"name": &tengo.String{Value: name}, "v": &tengo.Int{Value: v}}}
+		case 1:
+			return &tengo.ImmutableMap{Value: map[string]tengo.Object{"v": &tengo.Array{Value: []tengo.Object{&tengo.Int{Value: v}}}}}
+		}
+		return &tengo.ImmutableMap{Value: map[string]tengo.Object{"v": &tengo.Int{Value: v}}}
+	}
+	mods := tengo.NewModuleMap()
+	mods.Add("alpha", objModule{mk("alpha", va)})
+	mods.Add("beta", objModule{mk("beta", vb)})
+	mods.AddSourceModule("via", []byte(`export {b: import("beta"), a: import("alpha")}`))
+	srcs := []string{
+		`x := import("alpha"); y := import("beta")`,
+		`y := import("beta"); x := import("alpha")`,
+		`x := import("alpha"); x2 := import("alpha"); y := import("beta")`,
+		`w := import("via"); x := w.a; y := w.b`,
+		`x := import("alpha"); w := import("via"); y := w.b; x3 := w.a`,
+	}
+	s := tengo.NewScript([]byte(srcs[vf.Choice("src", len(srcs))]))
+	s.SetImports(mods)
+	c, err := s.Compile()
+	vf.Assert(err == nil, "program importing object modules compiles")
+	rerr, panicked, ptext := RunGuarded(c)
+	vf.Assert(!panicked && rerr == nil, "program importing object modules runs: "+ptext)
+	vf.Assert(Same(c.Get("x").Object(), mk("alpha", va)), "import(\"alpha\") yields module alpha's value")
+	vf.Assert(Same(c.Get("y").Object(), mk("beta", vb)), "import(\"beta\") yields module beta's value")
+	if c.IsDefined("x2") {
+		vf.Assert(Same(c.Get("x2").Object(), mk("alpha", va)), "a second import(\"alpha\") yields module alpha's value")
+	}
+	if c.IsDefined("x3") {
+		vf.Assert(Same(c.Get("x3").Object(), mk("alpha", va)), "import(\"alpha\") inside a source module yields module alpha's value")
+	}
+	vf.Reach("objmods")
 }
